@@ -116,7 +116,10 @@ fn enum_lengths(seed: u64, run: u64, tier: Tier) -> Plan {
         (Tier::Thorough, false) => 2100,
     };
     let mut lens: Vec<usize> = (0..=top).collect();
-    lens.extend([4095, 4096, 4097, 65535, 65536, 65537]);
+    for p2 in [1024usize, 2048, 8192, 16384, 32768] {
+        lens.extend([p2 - 1, p2, p2 + 1]);
+    }
+    lens.extend([4095, 4096, 4097, 65535, 65536, 65537, 70_000, 100_003]);
     if tier == Tier::Thorough {
         lens.extend([(1 << 20) - 1, 1 << 20, (1 << 20) + 1]);
     }
